@@ -340,6 +340,17 @@ def targets(ctx):
         "only_map_of_msg.proto": _pkg("only_map_of_msg", "message M { map<int32, M> m = 1; int32 mk20012 = 20012; }\n"),
         "only_repeated_msg.proto": _pkg("only_repeated_msg", "message M { repeated M r = 1; int32 mk20013 = 20013; }\n"),
         "only_optional_msg.proto": _pkg("only_optional_msg", "message M { optional M o = 1; int32 mk20014 = 20014; }\n"),
+        # oneof shapes, one per package: groups of exactly one member (the hand-written explicit-presence idiom), one /
+        # two / three such groups, next to or without a multi-member group, message / enum / wrapper members
+        "oneof_solo1.proto": _pkg("oneof_solo1", "message M { oneof a { int32 x = 1; } int32 mk20015 = 20015; }\n"),
+        "oneof_solo2.proto": _pkg("oneof_solo2", "message M { oneof a { int32 x = 1; } oneof b { string y = 2; } int32 mk20016 = 20016; }\n"),
+        "oneof_solo3.proto": _pkg("oneof_solo3", "message M { oneof a { M x = 1; } oneof b { E y = 2; } oneof c { bytes z = 3; } int32 mk20017 = 20017; }\nenum E { E_ZERO = 0; E_MK = 20018; }\n"),
+        "oneof_solo_and_multi.proto": _pkg("oneof_solo_and_multi", "message M { oneof a { int32 x = 1; } oneof b { string y = 2; bool z = 3; } int32 mk20019 = 20019; }\n"),
+        "oneof_two_messages.proto": _pkg("oneof_two_messages", "message M { oneof a { int32 x = 1; } int32 mk20020 = 20020; }\nmessage N { oneof b { string y = 1; } int32 mk20021 = 20021; }\n"),
+        "oneof_optional_mix.proto": _pkg("oneof_optional_mix", "message M { oneof a { int32 x = 1; } optional int32 o = 2; optional string p = 3; int32 mk20022 = 20022; }\n"),
+        "oneof_wrapper_member.proto": _pkg("oneof_wrapper_member", "message M { oneof a { google.protobuf.Int32Value w = 1; google.protobuf.Timestamp t = 2; } int32 mk20023 = 20023; }\n",
+                                            'import "google/protobuf/wrappers.proto";\nimport "google/protobuf/timestamp.proto";\n'),
+        "oneof_nested_msg.proto": _pkg("oneof_nested_msg", "message M { message In { oneof a { int32 x = 1; } oneof b { int32 y = 2; } int32 mk20024 = 20024; } In in_ = 1; int32 mk20025 = 20025; }\n"),
     }
 
     def fixed_cases():
